@@ -9,7 +9,7 @@ import Cacache.Lemmas.Index
 
 namespace Cacache.C06
 
-variable {R M : Type}
+variable {R M : Type} {W : R → Prop}
 
 /-- **Cut.**  A newline separates a bucket into two independently decoded halves. -/
 theorem entries_cut (c : Codec R M) (a x : Bytes) :
@@ -46,12 +46,13 @@ theorem invalid_utf8_line_skipped (c : Codec R M) (a x z : Bytes) (hx : NL ∉ x
 /-- **A torn tail is harmless**: whatever prefix `t` of a record a crash left at the end of the
 file, the next append's leading newline terminates it, the new record is effective, and the torn
 bytes contribute at most what they decode to. -/
-theorem torn_tail_then_append (c : Codec R M) (L : c.Laws) (b t : Bytes) (ht : NL ∉ t) (r : R) :
+theorem torn_tail_then_append (c : Codec R M) (L : c.Laws W) (b t : Bytes) (ht : NL ∉ t) (r : R)
+    (hr : W r) :
     c.entries ((b ++ NL :: t) ++ c.frame r) =
       c.entriesT b ++ (c.decLine (lineT c.valid t)).toList ++ [r] := by
   have : (b ++ NL :: t) ++ c.frame r = b ++ NL :: (t ++ NL :: c.enc r) := by
     simp [Codec.frame]
-  rw [this, damage_contained c b t (c.enc r) ht, L.entries_enc]
+  rw [this, damage_contained c b t (c.enc r) ht, L.entries_enc r hr]
 
 /-- **No forgery.**  Every record a reader reports is the decoding of one line of the file: a
 lookup or listing can only return what some line, with a matching checksum, spells out. -/
